@@ -550,6 +550,7 @@ package astits
 //@   ensures [C04,C11] nopayload: fits && !p.Header.HasPayload && len(p.Payload) == 0 ==> wN(w) == n0 + targetPacketSize && aligned(w)
 //@   ensures [C04,C11] reject: !fits ==> retErr != nil && written == 0
 //@   ensures [C04] rejectclean: !fits ==> wN(w) == n0
+//@   ensures [C04] ownerr: retErr != ErrPCRPIDInvalid && retErr != ErrPIDNotFound
 //@   ensures [C18] surfaced: wF(w) != old(wF(w)) ==> retErr != nil
 //@   ensures [C16] keeps: len(p.Payload) == old(len(p.Payload)) && cap(p.Payload) == old(cap(p.Payload)) && p.AdaptationField == old(p.AdaptationField)
 //@   loop 0 invariant [W] pad: aligned(w) && written <= targetPacketSize && wN(w) == atentry(wN(w)) + iter && written == atentry(written) + iter
@@ -1152,18 +1153,62 @@ package astits
 // ---------------------------------------------------------------------------
 // muxer.go
 
-// WriteTables is not verified yet: its frame and the following are assumed (it touches the table state, the
-// counters and versions, the internal buffer and its writer, and the output - never the retransmit counter, the
-// stream list or the elementary-stream contexts; it leaves the internal writer on a byte boundary; on success it
-// reports the bytes it emitted, a whole number of packets).
-//@ extern (*Muxer).WriteTables
-//@   modifies m.pmUpdated, m.pmtUpdated, all(m.patVersion), all(m.pmtVersion), all(m.patCC), all(m.pmtCC), sinkN(m.w), sinkData(m.w), sinkFails(m.w), writer(m.bufWriter)
-//@   ensures [C04,C17,C05] assumed: aligned(m.bufWriter) && (result1 == nil ==> sinkN(m.w) == old(sinkN(m.w)) + result0 && 0 <= result0 && result0 <= 0x100000 && m188(result0))
+// Pieces of the table generation that are not verified: the PAT content is collected from the program map, and
+// writePSIData serialises a section (it installs a CRC callback on the writer, which the generator does not model).
+// Assumed: they touch nothing but what is listed, and a section is shorter than 64 KiB.
+//@ extern (programMap).toPATDataUnlocked
+//@   ensures [C04,C05,C17] data: result != nil && fresh(result) && 0 <= len(result.Programs) && len(result.Programs) <= 4000
+//@ extern writePSIData
+//@   modifies writer(w)
+//@   ensures [C04,C05,C17] assumed: aligned(w) && 0 <= wN(w) && wN(w) >= old(wN(w)) && wN(w) - old(wN(w)) < 0x10000 && result1 != ErrPCRPIDInvalid
+// io.Writer (assumed, per its documentation): n bytes are accepted, all of them when no error is returned.
+//@ extern (io.Writer).Write
+//@   modifies sinkN(recv), sinkData(recv), sinkFails(recv)
+//@   ensures [C04,C05,C17,C18] doc: 0 <= n && n <= len(p) && sinkN(recv) == old(sinkN(recv)) + n && (err == nil ==> n == len(p))
+
+// calcPMTSectionLength only reads the PMT (its value is not specified here: the PMT section writer is not under contract).
+//@ extern calcPMTSectionLength
+//@   opt pure
+//@ func (*Muxer).generatePAT
+//@   opt noframe
+//@   requires m != nil && isroot(m) && m.packetSize == 188 && 0 <= m.patVersion.value && m.patVersion.value <= 32 && m.patVersion.wrapAt == 31 && 0 <= m.patCC.value && m.patCC.value <= 16 && m.patCC.wrapAt == 15
+//@   modifies m.pmUpdated, all(m.patVersion), all(m.patCC), sinkN(m.buf), sinkData(m.buf), sinkFails(m.buf), sinkN(m.patBytes), sinkData(m.patBytes), sinkFails(m.patBytes)
+//@   ensures [C17] version: result == nil ==> !m.pmUpdated && m.patVersion.value == ite(old(m.pmUpdated), ite(old(m.patVersion.value) + 1 > 31, 0, old(m.patVersion.value) + 1), old(m.patVersion.value))
+//@   ensures [C05] cc: result == nil ==> m.patCC.value == ite(old(m.patCC.value) + 1 > 15, 0, old(m.patCC.value) + 1)
+//@   ensures [C04,C17,C05] packet: result == nil ==> sinkN(m.patBytes) == 188
+//@   ensures [C04,C17,C05] keeps: m.patVersion.wrapAt == 31 && m.patCC.wrapAt == 15 && 0 <= m.patVersion.value && m.patVersion.value <= 32 && 0 <= m.patCC.value && m.patCC.value <= 16
+
+//@ func (*Muxer).generatePMT
+//@   opt noframe
+//@   opt noloopframe
+//@   requires m != nil && isroot(m) && m.packetSize == 188 && 0 <= m.pmtVersion.value && m.pmtVersion.value <= 32 && m.pmtVersion.wrapAt == 31 && 0 <= m.pmtCC.value && m.pmtCC.value <= 16 && m.pmtCC.wrapAt == 15
+//@   requires 0 <= len(m.pmt.ElementaryStreams) && allocated(m.pmt.ElementaryStreams) && forall(k, 0, len(m.pmt.ElementaryStreams), m.pmt.ElementaryStreams[k] != nil)
+//@   modifies m.pmtUpdated, all(m.pmtVersion), all(m.pmtCC), sinkN(m.buf), sinkData(m.buf), sinkFails(m.buf), sinkN(m.pmtBytes), sinkData(m.pmtBytes), sinkFails(m.pmtBytes)
+//@   loop 0 invariant [C04,C05,C17] scan: rangeindex == iter - 1 && iter <= len(m.pmt.ElementaryStreams)
+//@   ensures [C17] version: result == nil ==> !m.pmtUpdated && m.pmtVersion.value == ite(old(m.pmtUpdated), ite(old(m.pmtVersion.value) + 1 > 31, 0, old(m.pmtVersion.value) + 1), old(m.pmtVersion.value))
+//@   ensures [C05] cc: result == nil ==> m.pmtCC.value == ite(old(m.pmtCC.value) + 1 > 15, 0, old(m.pmtCC.value) + 1)
+//@   ensures [C04,C17,C05] packet: result == nil ==> sinkN(m.pmtBytes) == 188
+//@   ensures [C05,C17] invalid: result == ErrPCRPIDInvalid ==> m.pmtUpdated == old(m.pmtUpdated) && m.pmtVersion.value == old(m.pmtVersion.value) && m.pmtCC.value == old(m.pmtCC.value)
+//@   ensures [C17] nopcr: forall(k, 0, len(m.pmt.ElementaryStreams), m.pmt.ElementaryStreams[k].ElementaryPID != m.pmt.PCRPID) ==> result == ErrPCRPIDInvalid && m.pmtUpdated == old(m.pmtUpdated) && m.pmtVersion.value == old(m.pmtVersion.value) && m.pmtCC.value == old(m.pmtCC.value)
+
+// WriteTables: both tables are regenerated (the PMT first, so that an invalid PCR PID is met before any PAT counter is
+// consumed), then emitted PAT first; on success exactly two packets (376 bytes) have
+// been handed to the output and that is the count returned; the retransmit counter, the stream list and the
+// elementary-stream contexts are not touched, and the internal writer stays on a byte boundary.
+//@ func (*Muxer).WriteTables
+//@   opt noframe
+//@   requires tablesOK(m)
+//@   modifies m.pmUpdated, m.pmtUpdated, all(m.patVersion), all(m.pmtVersion), all(m.patCC), all(m.pmtCC), sinkN(m.w), sinkData(m.w), sinkFails(m.w), writer(m.bufWriter), sinkN(m.patBytes), sinkData(m.patBytes), sinkFails(m.patBytes), sinkN(m.pmtBytes), sinkData(m.pmtBytes), sinkFails(m.pmtBytes)
+//@   ensures [C05,C17] pmtfail: retof("(*Muxer).generatePMT", 0) == ErrPCRPIDInvalid ==> result1 == ErrPCRPIDInvalid && sinkN(m.w) == old(sinkN(m.w)) && m.patCC.value == old(m.patCC.value) && m.pmtCC.value == old(m.pmtCC.value) && m.patVersion.value == old(m.patVersion.value) && m.pmtVersion.value == old(m.pmtVersion.value) && m.pmUpdated == old(m.pmUpdated) && m.pmtUpdated == old(m.pmtUpdated)
+//@   ensures [C04,C17,C05] count: aligned(m.bufWriter) == old(aligned(m.bufWriter)) && (result1 == nil ==> sinkN(m.w) == old(sinkN(m.w)) + result0 && 0 <= result0 && result0 <= 0x100000 && m188(result0))
+//@   ensures [C04,C17] two: result1 == nil ==> result0 == 376
+//@   ensures [C17] current: result1 == nil ==> !m.pmUpdated && !m.pmtUpdated
+//@   ensures [C05] cc: result1 == nil ==> m.patCC.value == ite(old(m.patCC.value) + 1 > 15, 0, old(m.patCC.value) + 1) && m.pmtCC.value == ite(old(m.pmtCC.value) + 1 > 15, 0, old(m.pmtCC.value) + 1)
 
 //@ func (*Muxer).retransmitTables
 //@   use m188zero
-//@   requires m != nil && aligned(m.bufWriter)
-//@   modifies m.tablesRetransmitCounter, m.pmUpdated, m.pmtUpdated, all(m.patVersion), all(m.pmtVersion), all(m.patCC), all(m.pmtCC), sinkN(m.w), sinkData(m.w), sinkFails(m.w), writer(m.bufWriter)
+//@   requires m != nil && aligned(m.bufWriter) && tablesOK(m)
+//@   modifies m.tablesRetransmitCounter, m.pmUpdated, m.pmtUpdated, all(m.patVersion), all(m.pmtVersion), all(m.patCC), all(m.pmtCC), sinkN(m.w), sinkData(m.w), sinkFails(m.w), writer(m.bufWriter), sinkN(m.patBytes), sinkData(m.patBytes), sinkFails(m.patBytes), sinkN(m.pmtBytes), sinkData(m.pmtBytes), sinkFails(m.pmtBytes)
 //@   ensures [C04,C17,C05] count: aligned(m.bufWriter) && (result1 == nil ==> sinkN(m.w) == old(sinkN(m.w)) + result0 && 0 <= result0 && result0 <= 0x100000 && m188(result0))
 //@   let c0 = old(m.tablesRetransmitCounter)
 //@   let due = force || c0 + 1 >= m.tablesRetransmitPeriod
@@ -1190,6 +1235,7 @@ package astits
 //@   opt noloopframe
 //@   use m188zero m188step
 //@   requires 0 <= wN(m.bitsWriter) && wN(m.bitsWriter) < 0x10000000000
+//@   requires tablesOK(m)
 //@   requires muxOK(m) && d != nil && d.PES != nil && d.PES.Header != nil && d.PES.Header.OptionalHeader != nil && ohOK(d.PES.Header.OptionalHeader)
 //@   requires allocated(d.PES.Data) && 0 <= len(d.PES.Data) && len(d.PES.Data) < 0x100000000
 //@   requires d.AdaptationField != nil ==> afOK(d.AdaptationField) && d.AdaptationField.StuffingLength == 0 && !d.AdaptationField.IsOneByteStuffing && afBody(d.AdaptationField) <= 183
